@@ -21,7 +21,9 @@ def main(argv):
     os.environ.setdefault("PYTHONHASHSEED", "0")
     # local time zone of the recording/reading processes: deliberately not UTC (POSIX TZ string, no tzdata
     # needed); every name and time in the format is defined in UTC and must not depend on it
-    os.environ["TZ"] = os.environ.get("DRFVERIF_TZ", "IST-5:30")
+    # (US Eastern rules: on 2014-03-09 local times 02:00-03:00 do not exist; the universes put UTC-named
+    #  directories such as 2014-03-09T02-59-50 and ...T03-00-00 next to each other on purpose)
+    os.environ["TZ"] = os.environ.get("DRFVERIF_TZ", "EST5EDT,M3.2.0,M11.1.0")
     import time as _time
 
     _time.tzset()
